@@ -218,6 +218,25 @@ Proof.
     [rewrite h2; apply h1|rewrite c2; apply c1|rewrite q2; apply q1|rewrite y2; apply y1|congruence|congruence|congruence].
 Qed.
 
+(* the same without the per-class count (it is decremented when run() resumes after a transmission) *)
+Record dsameh (cfg : dcfg) (d d' : drr) : Prop := {
+  h_held : forall c, dheld cfg d' c = dheld cfg d c;
+  h_qcnt : forall f, dqcnt d' f = dqcnt d f;
+  h_qbytes : forall f, dqbytes d' f = dqbytes d f;
+  h_total : dtotal d' = dtotal d;
+  h_lmax : dlmax d' = dlmax d;
+  h_now : dnow d' = dnow d
+}.
+
+Lemma dsame_h cfg d d' : dsame cfg d d' -> dsameh cfg d d'.
+Proof. intros [h c q y t l n]. constructor; auto. Qed.
+
+Lemma dsameh_trans cfg a b c : dsameh cfg a b -> dsameh cfg b c -> dsameh cfg a c.
+Proof.
+  intros [h1 q1 y1 t1 l1 n1] [h2 q2 y2 t2 l2 n2]. constructor; intros;
+    [rewrite h2; apply h1|rewrite q2; apply q1|rewrite y2; apply y1|congruence|congruence|congruence].
+Qed.
+
 (* dbase moves along when held, counters and token store stay and the new credits are within bounds *)
 Lemma dbase_transfer cfg d d' :
   dbase cfg d -> dsame cfg d d' -> (forall c, ddone cfg d' c = ddone cfg d c) -> sq_nostrand (dtok d') ->
@@ -573,15 +592,15 @@ Proof.
   - intros c Hc. discriminate.
 Qed.
 
-Lemma dstep_init cfg d d' e : dwf cfg -> dinv cfg d -> drr_act cfg d DInit = Some (d', e) -> dinv cfg d'.
+Lemma dstep_init cfg d d' e : dwf cfg -> dinv cfg d -> drr_act cfg d DInit = Some (d', e) -> dinv cfg d' /\ dsameh cfg d d'.
 Proof.
   intros Hwf I H. unfold drr_act in H. destruct (dctrl d) eqn:K; try discriminate.
   pose proof (i_ctl _ _ I) as C. unfold dctl_ok in C. rewrite K in C. destruct C as (C1 & C2 & C3).
   assert (M : dmid cfg d None) by (apply dinv_mid; auto; unfold dvisiting; rewrite K; reflexivity).
-  apply (dpasses_spec cfg _ d d' e Hwf M H).
+  destruct (dpasses_spec cfg _ d d' e Hwf M H) as (I' & [S _]). split; [exact I'|apply dsame_h; exact S].
 Qed.
 
-Lemma dstep_tokget cfg d d' e : dwf cfg -> dinv cfg d -> drr_act cfg d (DGetDone None) = Some (d', e) -> dinv cfg d'.
+Lemma dstep_tokget cfg d d' e : dwf cfg -> dinv cfg d -> drr_act cfg d (DGetDone None) = Some (d', e) -> dinv cfg d' /\ dsameh cfg d d'.
 Proof.
   intros Hwf I H. unfold drr_act in H. destruct (dctrl d) eqn:K; try discriminate.
   destruct (sq_take (dtok d)) as [[x q]|] eqn:Tk; [|discriminate].
@@ -594,7 +613,8 @@ Proof.
       cbn. apply (fifo_nostrand_take unit _ _ _ Tk).
     - intros c _. apply (i_rest _ _ I). unfold dvisiting. rewrite K. discriminate.
     - intros c Hc. discriminate. }
-  apply (dpasses_spec cfg _ _ d' e Hwf M H).
+  destruct (dpasses_spec cfg _ _ d' e Hwf M H) as (I' & [S _]). split; [exact I'|].
+  apply dsame_h. eapply dsame_trans; [|exact S]. constructor; reflexivity.
 Qed.
 
 (* what the pieces of the control invariant say about the getters of the class stores *)
@@ -607,7 +627,7 @@ Proof.
   - intros (_ & _ & H & _). rewrite H. discriminate.
 Qed.
 
-Lemma dstep_get cfg d c d' e : dwf cfg -> dinv cfg d -> drr_act cfg d (DGetDone (Some c)) = Some (d', e) -> dinv cfg d'.
+Lemma dstep_get cfg d c d' e : dwf cfg -> dinv cfg d -> drr_act cfg d (DGetDone (Some c)) = Some (d', e) -> dinv cfg d' /\ dsameh cfg d d'.
 Proof.
   intros Hwf I H. unfold drr_act in H. destruct (dctrl d) as [| |c0 rest|] eqn:K; try discriminate.
   destruct (Z.eqb_spec c c0) as [<-|]; [|discriminate].
@@ -635,7 +655,10 @@ Proof.
       rewrite (b_ccnt _ _ B c) in Hc. unfold ddone in Hc. rewrite C1 in Hc. cbv beta iota in Hc. lia. }
   pose proof (dtry_head_spec cfg (dset_st d c q) c rest p Hwf M C6) as HT.
   apply (dcontinue_spec cfg rest _ d' e Hwf (dsuffix_tail _ _ _ C6)) in H.
-  - apply H.
+  - destruct H as (I' & H). split; [exact I'|]. apply dsame_h.
+    destruct (dtry_head c rest (dset_st d c q) p) as [dr er|dr er|]; [| |contradiction];
+      destruct HT as (_ & S2 & _); destruct H as [S3 _];
+      (eapply dsame_trans; [exact S|]; eapply dsame_trans; [exact S2|exact S3]).
   - destruct (dtry_head c rest (dset_st d c q) p); [apply HT|apply HT|exact HT].
 Qed.
 
@@ -846,7 +869,7 @@ Proof.
   - intros k Hk. apply (i_rest _ _ I k). exact Hk.
 Qed.
 
-Lemma dstep_childend cfg d d' e : dwf cfg -> dinv cfg d -> drr_act cfg d DChildEnd = Some (d', e) -> dinv cfg d'.
+Lemma dstep_childend cfg d d' e : dwf cfg -> dinv cfg d -> drr_act cfg d DChildEnd = Some (d', e) -> dinv cfg d' /\ dsameh cfg d d'.
 Proof.
   intros Hwf I H. unfold drr_act in H. destruct (dchd d) as [| | |p] eqn:Ch; try discriminate.
   pose proof (i_base _ _ I) as B. pose proof (i_ctl _ _ I) as C.
@@ -885,8 +908,13 @@ Proof.
       destruct Hpre as [Hz|Hz]; [contradiction|]. lra. }
   pose proof (dinner_spec cfg d1 c rest Hwf M C5) as HI.
   destruct (dcontinue cfg rest (dinner c rest d1)) as [[d2 e2]|] eqn:Dc; [|discriminate]. injection H as <- <-.
-  apply (dcontinue_spec cfg rest _ d2 e2 Hwf (dsuffix_tail _ _ _ C5)) in Dc; [apply Dc|].
-  destruct (dinner c rest d1); [apply HI|apply HI|exact HI].
+  apply (dcontinue_spec cfg rest _ d2 e2 Hwf (dsuffix_tail _ _ _ C5)) in Dc.
+  - destruct Dc as (I' & Dc). split; [exact I'|].
+    assert (S1 : dsameh cfg d d1) by (constructor; try reflexivity; exact Hheld).
+    eapply dsameh_trans; [exact S1|]. apply dsame_h.
+    destruct (dinner c rest d1) as [dr er|dr er|]; [| |contradiction];
+      destruct HI as (_ & S2 & _); destruct Dc as [S3 _]; (eapply dsame_trans; [exact S2|exact S3]).
+  - destruct (dinner c rest d1); [apply HI|apply HI|exact HI].
 Qed.
 
 Lemma durgent_false cfg d : durgent cfg d = false ->
@@ -935,14 +963,14 @@ Theorem dinv_step cfg d a d' e : dwf cfg -> dinv cfg d -> drr_act cfg d a = Some
 Proof.
   intros Hwf I H. destruct a as [p| |[c|]|[c|]| | | |t].
   - eapply dstep_put; eauto.
-  - eapply dstep_init; eauto.
+  - apply (dstep_init cfg d d' e Hwf I H).
   - eapply dstep_cb_cls; eauto.
   - eapply dstep_cb_tok; eauto.
-  - eapply dstep_get; eauto.
-  - eapply dstep_tokget; eauto.
+  - apply (dstep_get cfg d c d' e Hwf I H).
+  - apply (dstep_tokget cfg d d' e Hwf I H).
   - eapply dstep_childinit; eauto.
   - eapply dstep_childtimer; eauto.
-  - eapply dstep_childend; eauto.
+  - apply (dstep_childend cfg d d' e Hwf I H).
   - eapply dstep_advance; eauto.
 Qed.
 
